@@ -8,6 +8,9 @@ pub mod creator;
 pub mod reader;
 pub mod tools;
 
+#[cfg(jubako_verif)]
+pub mod verif_hooks;
+
 #[cfg(feature = "clap")]
 pub mod cmd_utils;
 
